@@ -521,6 +521,13 @@ def r_small_quantile(ctx, db, est, roles, grid):
                 ctx.ob("R-RANGE", "small-sample:within-min-max:n=%d" % n, qp, fsite, inr,
                        "returned value %s is %s" % (show_val(ret)[:80], "an order statistic or the midpoint of two: it lies between the smallest and largest observation" if inr
                                                     else "neither an order statistic nor a midpoint of two"))
+                if is_float(ret):
+                    import num_rules as NR
+                    ov = NR.overflow_at_max(ret)
+                    ctx.ob("R-MAG", "small-sample:no-overflow:n=%d" % n, qp, fsite, ov is None,
+                           "no intermediate of the returned expression exceeds f64::MAX when every observation is finite" if ov is None else
+                           "the intermediate %s reaches about 1e%.1f when the observations are as large as f64::MAX: quantile() returns an infinity "
+                           "although the exact result lies between the observations" % (show_val(ov[0])[:120], ov[1]))
                 ctx.ob("R-TAINT", "small-sample:sorted-only:n=%d" % n, qp, fsite, okt,
                        ("returned height %s reads the arrival-order store (%s) instead of the sorted copy [path: %s]" % (show_val(ret)[:80], sorted(raw), pcs))
                        if not okt else "returned height %s derives from the sorted copy only [path: %s]" % (show_val(ret)[:80], pcs),
